@@ -88,9 +88,11 @@ def make_execution(how, text):
     return ac.call("boom"), ""
 
 
-def enc_execution(x):
+def enc_execution(x, failed=None):
     if isinstance(x, ac.rt.Sandbox):
-        return ["0", str(ac.oid(x)), "0", ("X%d" if x.exception is not None else "O%d") % ac.oid(x)]
+        if failed is None:
+            failed = x.exception is not None
+        return ["0", str(ac.oid(x)), "0", ("X%d" if failed else "O%d") % ac.oid(x)]
     return ac.enc_operand(x)
 
 
@@ -98,7 +100,7 @@ def enc_str_tok(s):
     return "S" + (",".join(str(ord(c)) for c in s) if s else "-")
 
 
-def request_line(name, a, b, exact=False, delta=None, printed=None, spelling=None):
+def request_line(name, a, b, exact=False, delta=None, printed=None, spelling=None, failed=None):
     """`a ...` request for one assertion call, or None when an operand is outside the wire universe."""
     d = ac.code_delta(name) if delta is None else delta
     ra, rb = ac.raw(a), ac.raw(b)
@@ -110,7 +112,7 @@ def request_line(name, a, b, exact=False, delta=None, printed=None, spelling=Non
             right = ["0", "0", "0", enc_str_tok("None")]
             left = ac.enc_operand(a)
         elif name in ac.OUTPUT:
-            left = enc_execution(a)
+            left = enc_execution(a, failed)
             right = ac.enc_operand(b)
             if not isinstance(ra, BaseException):
                 out_l = enc_str_tok(ac.chomp(printed))
@@ -135,3 +137,187 @@ def request_line(name, a, b, exact=False, delta=None, printed=None, spelling=Non
     except ac.Unencodable:
         return None
     return " ".join(["a", name, "1" if exact else "0", search, str_r, out_l] + dt + left + right)
+
+
+# --------------------------------------------------------------------------------------
+# histories: the operand of an assertion is produced in the middle of a sequence of executions
+#
+# A history is a JSON-able list of steps executed on the shared sandbox:
+#   ["say", t]      call('say', t)            prints t + "\n"        ["sayraw", t]  call('say_raw', t)  prints t
+#   ["quiet"]       call('say_quiet')         prints nothing         ["boom"]       call('boom')        fails
+#   ["sayboom", t]  call('say_boom', t)       prints t + "\n", then fails
+#   ["evalsay", t]  evaluate("say(<t>)")      prints t + "\n"        ["eval"]       evaluate("1 + 1")
+#   ["runcode", t]  run("print(<t>)")         prints t + "\n"; the step's result is the Sandbox
+#   ["rerun"]       run()                     the student program again (prints ac.MAIN_PRINTS); result: the Sandbox
+#   ["missing"]     call('no_such_function')  fails without executing anything (a raw exception comes back)
+#   ["getitem"]     sandbox['TABLE']          a lookup: no execution, but an entry in the sandbox's context list
+#   ["clear_output"], ["open"] (enter a CommandBlock), ["close"] (leave the innermost one; nothing if none is open)
+#   ["L", how] / ["R", how]   produce the left / right operand of a value assertion from the object given to
+#                   run_history: how = ident (call('ident', obj)) | evalv (evaluate of a name bound to obj) |
+#                   getv (sandbox[name]) | boom (the operand is the result of a failed call instead)
+# What every step printed and whether it failed is KNOWN TO THE GENERATOR and never read back from pedal.
+
+from pedal.sandbox.commands import CommandBlock, clear_output as _clear_output  # noqa: E402
+
+EXEC_KINDS = ("say", "sayraw", "quiet", "boom", "sayboom", "evalsay", "eval", "runcode", "rerun", "missing")
+_open_blocks = []
+_live = {"key": None, "out": None}
+_name_counter = [0]
+
+
+def end_history():
+    """leave every CommandBlock a history left open and forget the live history"""
+    while _open_blocks:
+        _open_blocks.pop().__exit__(None, None, None)
+    _live["key"] = None
+    _live["out"] = None
+
+
+def step_effect(step):
+    """(printed text, failed, adds an entry to the sandbox's context list) of one step - the generator's knowledge"""
+    k = step[0]
+    if k in ("say", "sayboom", "evalsay", "runcode"):
+        return step[1] + "\n", k == "sayboom", True
+    if k == "sayraw":
+        return step[1], False, True
+    if k == "rerun":
+        return ac.MAIN_PRINTS, False, True
+    if k in ("quiet", "eval"):
+        return "", False, True
+    if k == "boom":
+        return "", True, True
+    if k == "missing":
+        return "", True, False
+    if k == "getitem":
+        return "", None, True
+    if k in ("L", "R"):
+        return "", step[1] == "boom", True
+    return "", None, False
+
+
+def _produce(how, obj):
+    sb = ac.get_sandbox()
+    if how == "ident":
+        return ac.call("ident", obj)
+    if how == "boom":
+        return ac.call("boom")
+    _name_counter[0] += 1
+    name = "_c07_hist_%d" % _name_counter[0]
+    sb.data[name] = obj
+    return ac.evaluate(name) if how == "evalv" else sb[name]
+
+
+def run_step(step, left=None, right=None):
+    k = step[0]
+    sb = ac.get_sandbox()
+    if k == "say":
+        return ac.call("say", step[1])
+    if k == "sayraw":
+        return ac.call("say_raw", step[1])
+    if k == "quiet":
+        return ac.call("say_quiet")
+    if k == "boom":
+        return ac.call("boom")
+    if k == "sayboom":
+        return ac.call("say_boom", step[1])
+    if k == "evalsay":
+        return ac.evaluate("say(%r)" % (step[1],))
+    if k == "eval":
+        return ac.evaluate("1 + 1")
+    if k == "runcode":
+        return ac.run("print(%r)" % (step[1],))
+    if k == "rerun":
+        return ac.run()
+    if k == "missing":
+        return ac.call("no_such_function")
+    if k == "getitem":
+        return sb["TABLE"]
+    if k == "clear_output":
+        _clear_output()
+        return None
+    if k == "open":
+        block = CommandBlock()
+        block.__enter__()
+        _open_blocks.append(block)
+        return None
+    if k == "close":
+        if _open_blocks:
+            _open_blocks.pop().__exit__(None, None, None)
+        return None
+    if k == "L":
+        return _produce(step[1], left)
+    if k == "R":
+        return _produce(step[1], right)
+    raise ValueError(step)
+
+
+def run_history(steps, left=None, right=None):
+    """Execute the steps (after a successful call and clear_output(), so that the start is defined).
+    -> {"ops": [result of step i or None], "L": operand, "R": operand}; what the operands stand for is hist_expect's
+    business"""
+    end_history()
+    ac.setup()
+    ac.call("say_quiet")
+    _clear_output()
+    out = {"ops": [], "L": None, "R": None}
+    for step in steps:
+        res = run_step(step, left, right)
+        out["ops"].append(res)
+        if step[0] in ("L", "R"):
+            out[step[0]] = res
+    return out
+
+
+def hist_expect(steps, on):
+    """(text printed, failed) of the execution that operand `on` of the history stands for when the assertion is made
+    after the last step: a call / evaluate result stands for its own execution, the Sandbox (also as the result of a
+    run step) for everything written since the last clear_output and for the outcome of the latest execution.
+    Computed from the steps alone."""
+    total, sandbox_failed = "", False
+    for step in steps:
+        printed, failed, _ = step_effect(step)
+        total = "" if step[0] == "clear_output" else total + printed
+        if failed is not None:
+            sandbox_failed = failed
+    if on == "sandbox" or steps[on][0] in ("runcode", "rerun"):
+        return total, sandbox_failed
+    printed, failed, _ = step_effect(steps[on])
+    return printed, bool(failed)
+
+
+def live_history(steps):
+    """run_history, but the history of the previous call is reused when it is the same and still live
+    (assertions do not execute anything, so many probes can be made on one history)"""
+    key = repr(steps)
+    if _live["key"] != key:
+        out = run_history(steps)
+        _live["key"], _live["out"] = key, out
+    return _live["out"]
+
+
+def hist_label(steps, on):
+    """where the operand stands in the history when the assertion is made (for signatures and the evidence counts)"""
+    n, starts, idx, born_in_block = 0, [], {}, {}
+    for i, step in enumerate(steps):
+        if step[0] == "open":
+            starts.append(n)
+        elif step[0] == "close":
+            if starts:
+                starts.pop()
+        elif step_effect(step)[2]:
+            idx[i] = n
+            born_in_block[i] = bool(starts)
+            n += 1
+    where = "open-block" if starts else "no-open-block"
+    if on == "sandbox" or (isinstance(on, int) and steps[on][0] in ("runcode", "rerun")):
+        return "sandbox/" + where
+    if on in ("L", "R"):
+        on = max(i for i, s in enumerate(steps) if s[0] == on)
+    kind = "failed-result" if step_effect(steps[on])[1] else "result"
+    if on not in idx:
+        return kind + "/no-execution/" + where
+    if not starts:
+        return kind + ("/block-closed-since" if born_in_block[on] else "/no-block")
+    c, s0 = idx[on], starts[-1]
+    return kind + ("/made-before-the-open-block" if c < s0 else
+                   "/first-in-open-block" if c == s0 else "/later-in-open-block")
